@@ -228,7 +228,8 @@ REG['C16'] = dict(
          'obligations cfg_nextBorder / cfg_sentinel); one-hot windows give exactly 1; the confident-line test is monotone in its threshold. '
          'Over the reals: exp(log_softmax) sums to 1, lies in (0,1], and is invariant under a per-frame constant. Correspondence: '
          'the probabilities the code itself computes are sent as exact dyadics, outputs agree within 1e-12; the confident-line test is '
-         'exercised at ALL kinds of thresholds (negative incl. -inf, 0, (0,1), 1, > 1 incl. inf, next to the decisive value).',
+         'exercised at ALL kinds of thresholds (negative incl. -inf, 0, (0,1), 1, > 1 incl. inf, next to the decisive value). The stored line confidence (get_prob: runs of frames with the same best symbol merged) is never below the decoder\'s smallest '
+         'per-frame best posterior (getProb_ge_frame_min); compute_line_confidence is compared with an independent reference from the stored sparse logits.',
     note='Trusted: Lean kernel + 3 standard axioms; NumPy/SciPy exp/log/logsumexp approximate the real functions (D4); medians via '
          'np.quantile linear interpolation. Defect found and fixed: sentinel 1000 broke lines with > 1000 frames.',
     technique='Lean 4 proof (range/definedness lemmas over ordered fields; softmax identities over R) + differential correspondence',
